@@ -974,3 +974,166 @@ Section Stage.
     - rewrite Ecls. apply instances_of_In. exists t, cn. repeat split; assumption.
   Qed.
 End Stage.
+
+(** * Part 5 -- the strict domain as a boolean, and the run-level statement *)
+
+Fixpoint nodupb (l : list triple) : bool :=
+  match l with
+  | [] => true
+  | x :: r => negb (existsb (triple_eqb x) r) && nodupb r
+  end.
+
+Lemma nodupb_NoDup l : nodupb l = true -> NoDup l.
+Proof.
+  induction l as [|x r IH]; cbn; intros H; [constructor|].
+  apply andb_true_iff in H. destruct H as [H1 H2]. constructor; [|apply IH; exact H2].
+  intros Hin. apply negb_true_iff in H1. assert (existsb (triple_eqb x) r = true); [|congruence].
+  apply existsb_exists. exists x. split; [exact Hin | apply triple_eqb_eq; reflexivity].
+Qed.
+
+Fixpoint list_str_eqb (a b : list str) : bool :=
+  match a, b with
+  | [], [] => true
+  | x :: a', y :: b' => str_eqb x y && list_str_eqb a' b'
+  | _, _ => false
+  end.
+
+Lemma list_str_eqb_eq a b : list_str_eqb a b = true <-> a = b.
+Proof.
+  revert b; induction a as [|x a IH]; destruct b as [|y b]; cbn; try (split; congruence).
+  rewrite andb_true_iff, str_eqb_eq, IH. split; [intros [-> ->]; reflexivity | intros H; inversion H; auto].
+Qed.
+
+Section DomB.
+  Variable tau sns : str.
+  Variable G : graph.
+
+  Definition classes_in : list str :=
+    flat_map (fun t => if str_eqb (tp t) tau then match to t with ON cn => [nid cn] | OL _ _ => [] end else []) G.
+
+  Definition preds_in : list str := map tp G.
+
+  Definition kinds_homog (X : list node) : bool :=
+    match X with
+    | [] => true
+    | x0 :: _ => forallb (fun x => nkind_eqb (nk x) (nk x0)) X
+    end.
+
+  Definition typed_homog (X : list node) : bool :=
+    forallb (fun x => list_str_eqb (labels_of tau sns G x) []) X ||
+    match X with
+    | [] => true
+    | x0 :: _ => match labels_of tau sns G x0 with
+                 | [l] => forallb (fun x => list_str_eqb (labels_of tau sns G x) [l]) X
+                 | _ => false
+                 end
+    end.
+
+  Definition path_ok (c : str) (inv : bool) (p : str) : bool :=
+    str_eqb p tau || (kinds_homog (nl_nbrs tau G c inv p) && typed_homog (nl_nbrs tau G c inv p)).
+
+  Definition strict_domb : bool :=
+    nodupb G &&
+    forallb (fun t => match to t with
+                      | OL _ dt => negb (is_nonliteral_type dt) && negb (str_eqb dt c_NONLITERAL_ELEM_TYPE)
+                      | ON _ => true
+                      end) G &&
+    forallb (fun nl : node * label => is_shape_type (snd nl)) (T0 tau sns G) &&
+    forallb (fun t => if str_eqb (tp t) tau
+                      then match to t with
+                           | ON (Node KIri c) => list_str_eqb (labels_of tau sns G (Node KIri c)) [] &&
+                                                 negb (str_eqb c c_NONLITERAL_ELEM_TYPE)
+                           | _ => false
+                           end
+                      else true) G &&
+    forallb (fun c => forallb (fun p => path_ok c false p && path_ok c true p) preds_in) classes_in.
+
+  Lemma instances_of_nil c : ~ In c classes_in -> instances_of tau G c = [].
+  Proof.
+    intros Hn. destruct (instances_of tau G c) as [|i l] eqn:E; [reflexivity|exfalso].
+    assert (Hi : In i (instances_of tau G c)) by (rewrite E; left; reflexivity).
+    apply instances_of_In in Hi. destruct Hi as (t & cn & Ht & Hp & Ho & Hc & _).
+    apply Hn. unfold classes_in. apply in_flat_map. exists t. split; [exact Ht|].
+    rewrite <- Hp, str_eqb_refl, Ho. left. exact Hc.
+  Qed.
+
+  Lemma nl_nbrs_nil c inv p : ~ (In c classes_in /\ In p preds_in) -> nl_nbrs tau G c inv p = [].
+  Proof.
+    intros Hn. destruct (nl_nbrs tau G c inv p) as [|n l] eqn:E; [reflexivity|exfalso].
+    assert (Hin : In n (nl_nbrs tau G c inv p)) by (rewrite E; left; reflexivity).
+    apply nl_nbrs_In in Hin. destruct Hin as [i [Hi Hx]]. apply Hn. split.
+    - destruct (in_dec str_eq_dec c classes_in) as [H|H]; [exact H|].
+      rewrite (instances_of_nil c H) in Hi. destruct Hi.
+    - apply nbrs_In in Hx. destruct Hx as (t & Ht & Hp & _). unfold preds_in. rewrite <- Hp. apply in_map. exact Ht.
+  Qed.
+
+  Lemma strict_domb_sound : strict_domb = true -> strict_dom tau sns G.
+  Proof.
+    unfold strict_domb. rewrite !andb_true_iff. intros [[[[H1 H2] H3] H4] H5].
+    rewrite forallb_forall in H2, H3, H4, H5.
+    assert (Hpath : forall c inv p, p <> tau ->
+              kinds_homog (nl_nbrs tau G c inv p) = true /\ typed_homog (nl_nbrs tau G c inv p) = true).
+    { intros c inv p Hp.
+      destruct (in_dec str_eq_dec c classes_in) as [Hc|Hc];
+        [destruct (in_dec str_eq_dec p preds_in) as [Hpp|Hpp]|].
+      - specialize (H5 c Hc). rewrite forallb_forall in H5. specialize (H5 p Hpp).
+        apply andb_true_iff in H5. destruct H5 as [A B].
+        assert (E : path_ok c inv p = true) by (destruct inv; assumption).
+        unfold path_ok in E. apply str_eqb_neq in Hp. rewrite Hp in E. cbn in E. apply andb_true_iff in E. exact E.
+      - rewrite (nl_nbrs_nil c inv p) by tauto. split; reflexivity.
+      - rewrite (nl_nbrs_nil c inv p) by tauto. split; reflexivity. }
+    constructor.
+    - apply nodupb_NoDup. exact H1.
+    - intros t cc dt Ht Ho. specialize (H2 t Ht). rewrite Ho in H2. apply andb_true_iff in H2.
+      destruct H2 as [A B]. apply negb_true_iff in A. apply negb_true_iff in B. apply str_eqb_neq in B. split; assumption.
+    - intros n l Hin. apply (H3 (n, l) Hin).
+    - intros t Ht Hp. specialize (H4 t Ht). rewrite Hp, str_eqb_refl in H4.
+      destruct (to t) as [[[|] cn]|]; try discriminate H4.
+      apply andb_true_iff in H4. destruct H4 as [A B]. apply list_str_eqb_eq in A.
+      apply negb_true_iff in B. apply str_eqb_neq in B. exists cn. repeat split; assumption.
+    - intros c inv p x y Hp Hx Hy. destruct (Hpath c inv p Hp) as [Hk _]. unfold kinds_homog in Hk.
+      destruct (nl_nbrs tau G c inv p) as [|x0 X] eqn:E; [destruct Hx|]. rewrite forallb_forall in Hk.
+      pose proof (Hk x Hx) as A. pose proof (Hk y Hy) as B. apply nkind_eqb_eq in A. apply nkind_eqb_eq in B. congruence.
+    - intros c inv p Hp. destruct (Hpath c inv p Hp) as [_ Ht]. unfold typed_homog in Ht.
+      apply orb_true_iff in Ht. destruct Ht as [Ht|Ht].
+      + left. rewrite forallb_forall in Ht. intros x Hx. apply list_str_eqb_eq. apply Ht, Hx.
+      + destruct (nl_nbrs tau G c inv p) as [|x0 X] eqn:E; [left; intros x []|].
+        destruct (labels_of tau sns G x0) as [|l [|l2 ls]]; try discriminate Ht.
+        right. exists l. rewrite forallb_forall in Ht. intros x Hx. apply list_str_eqb_eq. apply Ht, Hx.
+  Qed.
+End DomB.
+
+(** ** the run: [run_shapes] is tracker, profiler, then [shex] *)
+Lemma run_shapes_inv fa c thr g ns shapes :
+  run_shapes fa c thr g = inl (ns, shapes) ->
+  exists ins P C ID,
+    full_ns c = Some ns /\
+    track (r_tau c) (match r_targets c with Some l => TClasses l | None => TAll end) (r_cap c) g = inl ins /\
+    profile (pcfg_of c) ins g = inl (P, C, ID) /\
+    shex fa (scfg_of c ns) thr P C = inl shapes.
+Proof.
+  unfold run_shapes. destruct (full_ns c) as [ns'|] eqn:E0; [|discriminate].
+  destruct (track _ _ _ g) as [ins|e] eqn:E1; [|discriminate].
+  destruct (profile (pcfg_of c) ins g) as [[[P C] ID]|[|]] eqn:E2; try discriminate.
+  destruct (shex fa (scfg_of c ns') thr P C) as [sh|e] eqn:E3; [|discriminate].
+  intros H; inversion H; subst. exists ins, P, C, ID. repeat split; assumption.
+Qed.
+
+(** T4 at the level of the whole run.  The premise [profile_exact] about the
+    profile the model computes is the profile characterisation P1. *)
+Theorem run_conformance fa okN okF (L : FreqLaws fa okN okF) c thr g ns shapes :
+  r_keep_less_specific c = true -> r_all_compliant c = true -> r_disable_or c = true ->
+  strict_domb (r_tau c) (r_shapes_ns c) g = true ->
+  okF thr -> (forall x, okF x -> fle fa thr x = true) ->
+  (forall ins P C ID,
+     track (r_tau c) (match r_targets c with Some l => TClasses l | None => TAll end) (r_cap c) g = inl ins ->
+     profile (pcfg_of c) ins g = inl (P, C, ID) ->
+     profile_exact okN (scfg_of c ns) g P C) ->
+  run_shapes fa c thr g = inl (ns, shapes) ->
+  valid_typing (schema_of (r_tau c) shapes) g (instance_typing (r_tau c) (r_shapes_ns c) g).
+Proof.
+  intros Hk Ha Ho Hsd Ht Ht0 HP Hrun.
+  destruct (run_shapes_inv _ _ _ _ _ _ Hrun) as (ins & P & C & ID & _ & Htr & Hpr & Hsh).
+  apply strict_domb_sound in Hsd.
+  exact (stage_conformance fa okN okF L (scfg_of c ns) g Hk Ha Ho Hsd thr Ht Ht0 P C (HP ins P C ID Htr Hpr) shapes Hsh).
+Qed.
